@@ -116,8 +116,27 @@ func (d *c19Dir) stateFile(n uint64) srv.StateFile {
 	sf := srv.StateFile{Time: d.timeOf(n)}
 	switch d.stream {
 	case srv.Minute:
-		sf.TxnMax = int(836_000_000 + n*7)
-		sf.TxnMaxQueried = sf.TxnMax - int(n%3)
+		// realistic magnitudes: 2016 values, values crossing 2^31 (the planet since about
+		// 2019) and 2^32 inside the directory, and today's (~6e9)
+		sf.Txn = true
+		base := int64(1<<31 - 50)
+		if d.tsid != 0 {
+			base = []int64{836_000_000, 1<<31 - 300, 1<<32 - 900, 6_100_000_000}[d.tsid>>7%4]
+		}
+		sf.TxnMax = base + int64(n%5000)*13
+		sf.TxnMaxQueried = sf.TxnMax - int64(n%3)
+		switch c19Mix(d.tsid+5, n) % 4 {
+		case 0: // empty list
+		case 1:
+			sf.TxnActive = []int64{sf.TxnMax - 227}
+		case 2:
+			sf.TxnActive = []int64{sf.TxnMax - 9000, sf.TxnMax - 227, sf.TxnMax - 3}
+			sf.TxnReady = []int64{sf.TxnMax - 1}
+		default:
+			for j := int64(40); j > 0; j-- {
+				sf.TxnActive = append(sf.TxnActive, sf.TxnMax-j*17)
+			}
+		}
 	case srv.Changesets:
 		sf.Format = srv.FmtYamlZ
 		if n%2 == 1 {
@@ -343,7 +362,7 @@ func c19CheckState(d *c19Dir, n uint64, st *replication.State) string {
 	if !st.Timestamp.Equal(sf.Time) {
 		return fmt.Sprintf("state.Timestamp=%s, file of %d says %s", st.Timestamp.UTC().Format(time.RFC3339Nano), n, sf.Time.Format(time.RFC3339Nano))
 	}
-	if d.stream == srv.Minute && (st.TxnMax != sf.TxnMax || st.TxnMaxQueried != sf.TxnMaxQueried) {
+	if d.stream == srv.Minute && (int64(st.TxnMax) != sf.TxnMax || int64(st.TxnMaxQueried) != sf.TxnMaxQueried) {
 		return fmt.Sprintf("txnMax/txnMaxQueried=%d/%d, file says %d/%d", st.TxnMax, st.TxnMaxQueried, sf.TxnMax, sf.TxnMaxQueried)
 	}
 	return ""
@@ -873,7 +892,20 @@ var c19EdgeTimes = []time.Time{
 	time.Date(2021, 10, 10, 10, 10, 10, 100000000, time.UTC),
 	time.Date(2024, 3, 31, 1, 30, 0, 120000, time.UTC),
 	time.Date(2007, 1, 1, 0, 0, 0, 999000000, time.UTC),
+	time.Date(1970, 1, 1, 0, 0, 0, 0, time.UTC),
+	time.Date(1970, 1, 1, 0, 0, 1, 1, time.UTC),
+	time.Date(2001, 9, 9, 1, 46, 40, 0, time.UTC),
+	time.Date(2038, 1, 19, 3, 14, 7, 999999999, time.UTC),
+	time.Date(2038, 1, 19, 3, 14, 8, 0, time.UTC),
+	time.Date(2106, 2, 7, 6, 28, 16, 500, time.UTC),
+	time.Date(2262, 4, 12, 0, 0, 0, 0, time.UTC), // beyond the int64 nanosecond range
+	time.Date(2999, 12, 31, 23, 59, 59, 999999999, time.UTC),
+	time.Date(9999, 12, 31, 23, 59, 59, 0, time.UTC),
 }
+
+// c19TxnMagnitudes are transaction ids a minute state file can carry: osmosis writes the
+// 64-bit txid_current() (epoch included); the planet's values passed 2^31 about 2019.
+var c19TxnMagnitudes = []int64{1, 836_439_235, 1<<31 - 1, 1 << 31, 1<<31 + 1, 3_000_000_000, 1<<32 - 1, 1 << 32, 1<<32 + 1, 6_123_456_789, 1 << 53, 1<<62 + 12345}
 
 // format: single state files fetched through the public per-stream functions, each
 // documented timestamp layout, edge instants; missing files must give NotFound errors.
@@ -888,10 +920,15 @@ func c19ExecFormat(res *fw.Result, p *srv.Planet, stream string, seed uint64) {
 	for i := 0; i < 10; i++ {
 		seqs = append(seqs, uint64(r.Int64Range(1, 999_999_999)))
 	}
+	// numbers the three-level path cannot carry are only served as the current state
+	// (state.txt / state.yaml), whose path does not contain the number
+	seqs = append(seqs, 1<<31-1, 1<<31, 1<<32-1, 1<<32, 1<<32+5, 1<<40, 1<<53+1, 1<<62)
+	shift := int(seed % 11)
 	checked := 0
 	for i, n := range seqs {
 		var tm time.Time
-		if i < len(c19EdgeTimes) {
+		curOnly := n >= 1_000_000_000
+		if i < len(c19EdgeTimes) || curOnly {
 			tm = c19EdgeTimes[(i+int(seed%7))%len(c19EdgeTimes)]
 		} else {
 			tm = time.Unix(r.Int64Range(1_100_000_000, 1_900_000_000), r.Int64Range(0, 999_999_999)).UTC()
@@ -909,11 +946,29 @@ func c19ExecFormat(res *fw.Result, p *srv.Planet, stream string, seed uint64) {
 					continue
 				}
 				sf := srv.StateFile{Time: tm, Format: f, YamlSeqSame: same}
+				txnKey := ""
 				if stream == srv.Minute {
-					sf.TxnMax, sf.TxnMaxQueried = 836439235+i, 836439230+i
+					sf.Txn = true
+					sf.TxnMax = c19TxnMagnitudes[(i+shift)%len(c19TxnMagnitudes)]
+					sf.TxnMaxQueried = sf.TxnMax - int64(i%4)
+					if i%5 == 4 { // the two fields are independent
+						sf.TxnMaxQueried = c19TxnMagnitudes[(i*5+3+shift)%len(c19TxnMagnitudes)]
+					}
+					switch i % 4 {
+					case 1:
+						sf.TxnActive = []int64{sf.TxnMax - 1}
+					case 2:
+						sf.TxnActive = []int64{sf.TxnMax - 2, sf.TxnMax - 1, sf.TxnMax}
+						sf.TxnReady = []int64{sf.TxnMax - 3, sf.TxnMax - 4}
+					case 3:
+						for j := int64(300); j > 0; j-- {
+							sf.TxnActive = append(sf.TxnActive, sf.TxnMax-j)
+						}
+					}
+					txnKey = fmt.Sprintf("/txn=%d,%d,active=%d", sf.TxnMax, sf.TxnMaxQueried, len(sf.TxnActive))
 				}
 				sd := &srv.Dir{Stream: stream, States: map[uint64]srv.StateFile{n: sf}, Current: n}
-				key := fmt.Sprintf("C19/state/stream=%s/fmt=%s/n=%d/time=%s", stream, f, n, tm.Format(time.RFC3339Nano))
+				key := fmt.Sprintf("C19/state/stream=%s/fmt=%s/n=%d/time=%s%s", stream, f, n, tm.Format(time.RFC3339Nano), txnKey)
 				check := func(what string, gotN uint64, st *replication.State, err error, wantPath string) {
 					count, log, unexpected, _ := p.Observed()
 					detail := map[string]any{"file": string(srv.RenderState(stream, n, sf, what == "current")), "log": log}
@@ -928,7 +983,7 @@ func c19ExecFormat(res *fw.Result, p *srv.Planet, stream string, seed uint64) {
 						c19Violate(res, key+"/"+what+"/seq", fmt.Sprintf("sequence number %d (state %+v), want %d", gotN, st, n), detail)
 					case !st.Timestamp.Equal(tm):
 						c19Violate(res, key+"/"+what+"/time", fmt.Sprintf("decoded %s, file says %s", st.Timestamp.UTC().Format(time.RFC3339Nano), tm.Format(time.RFC3339Nano)), detail)
-					case stream == srv.Minute && (st.TxnMax != sf.TxnMax || st.TxnMaxQueried != sf.TxnMaxQueried):
+					case stream == srv.Minute && (int64(st.TxnMax) != sf.TxnMax || int64(st.TxnMaxQueried) != sf.TxnMaxQueried):
 						c19Violate(res, key+"/"+what+"/txn", fmt.Sprintf("txnMax/txnMaxQueried %d/%d, file says %d/%d", st.TxnMax, st.TxnMaxQueried, sf.TxnMax, sf.TxnMaxQueried), detail)
 					}
 					res.Event(int64(count))
@@ -938,18 +993,23 @@ func c19ExecFormat(res *fw.Result, p *srv.Planet, stream string, seed uint64) {
 				if stream == srv.Changesets {
 					curName = "state.yaml"
 				}
-				load(sd, 4)
-				st, err := c19State(ds, stream, n)
-				gotN := uint64(0)
-				if st != nil {
-					gotN = st.SeqNum
+				if !curOnly {
+					load(sd, 4)
+					st, err := c19State(ds, stream, n)
+					gotN := uint64(0)
+					if st != nil {
+						gotN = st.SeqNum
+					}
+					check("file", gotN, st, err, "/replication/"+stream+"/"+srv.SeqPath(n)+".state.txt")
 				}
-				check("file", gotN, st, err, "/replication/"+stream+"/"+srv.SeqPath(n)+".state.txt")
 				load(sd, 4)
 				cn, cst, cerr := c19CurrentState(ds, stream)
 				check("current", cn, cst, cerr, "/replication/"+stream+"/"+curName)
-				res.Eval(fmt.Sprintf("state/%s/%s/same=%v/digits%d/ns%s", stream, f, same, len(strconv.FormatUint(n, 10)), c19NanoClass(tm)))
+				res.Eval(fmt.Sprintf("state/%s/%s/same=%v/seqbits%d/txnbits%d/active%d/y%d/ns%s", stream, f, same, bits.Len64(n), bits.Len64(uint64(sf.TxnMax)), len(sf.TxnActive), tm.Year()/100, c19NanoClass(tm)))
 			}
+		}
+		if curOnly {
+			continue
 		}
 		// a missing neighbour: 404 must surface as a NotFound error, a 500 as another error
 		sd := &srv.Dir{Stream: stream, States: map[uint64]srv.StateFile{}, Current: n}
@@ -966,7 +1026,7 @@ func c19ExecFormat(res *fw.Result, p *srv.Planet, stream string, seed uint64) {
 		res.Eval("state/" + stream + "/missing+500")
 	}
 	res.Add("state_files_decoded", int64(checked))
-	res.Sample = map[string]any{"stream": stream, "sequence_numbers": seqs[:8], "example_file": string(srv.RenderState(stream, 2010580, srv.StateFile{Time: c19EdgeTimes[1], TxnMax: 836439235, TxnMaxQueried: 836439235}, false))}
+	res.Sample = map[string]any{"stream": stream, "sequence_numbers": seqs[:8], "example_file": string(srv.RenderState(stream, 2010580, srv.StateFile{Time: c19EdgeTimes[1], Txn: true, TxnMax: 6123456789, TxnMaxQueried: 6123456789, TxnActive: []int64{6123456001, 6123456700}}, false))}
 }
 
 func c19NanoClass(t time.Time) string {
